@@ -229,6 +229,26 @@ func (ci *index) find(id string) (c *Persistent, ok bool) {
 	return nil, false
 }
 
+// findByClientIDOrIP finds persistent client by id, which is either a ClientID
+// or the string representation of an IP address, the way the identifiers of a
+// DNS request are passed to the query log and the statistics.  Unlike
+// [index.find], it never interprets id as a MAC address: a ClientID may be
+// spelled like one, e.g. "aa-bb-cc-dd-ee-ff", and must not be attributed to the
+// client that owns that MAC address.
+func (ci *index) findByClientIDOrIP(id string) (c *Persistent, ok bool) {
+	c, ok = ci.findByClientID(id)
+	if ok {
+		return c, true
+	}
+
+	ip, err := netip.ParseAddr(id)
+	if err != nil {
+		return nil, false
+	}
+
+	return ci.findByIP(ip)
+}
+
 // findByClientID finds persistent client by ClientID.
 func (ci *index) findByClientID(clientID string) (c *Persistent, ok bool) {
 	uid, ok := ci.clientIDToUID[clientID]
